@@ -31,6 +31,16 @@ func runC10(c *Ctx) {
 	c.freshConfirmation()
 	c.listerFilters("C10.4", "C10.4-dedup")
 	c.adoptOnlyOrphans("C10.5")
+	// "never ... counted": the census counts the claimed pods only (they are the reconcile's input); outside the census a
+	// pod is counted only after this controller's own successful create of it -- a create that failed, AlreadyExists
+	// included, says nothing about whose pod is there (the adjustment rule of C12, as a clause of this property)
+	{
+		n0 := len(c.Obs)
+		c.only = map[string]string{"C12.1-adjustment-follows-write": "C10.4-counted-only-after-its-own-successful-write"}
+		runC12(c)
+		c.only = nil
+		c.Floor("C10.4-adjustments-after-writes", len(c.Obs)-n0, 6)
+	}
 	// C10.6 the set is written only through status
 	nUS := 0
 	for _, s := range c.G.Sites {
